@@ -22,15 +22,20 @@ def sec_to_public_pair(
     byte_count = (generator.p().bit_length() + 7) >> 3 if generator else (len(sec) - 1)
     x = from_bytes_32(sec[1 : 1 + byte_count])
     sec0 = sec[:1]
+    if generator and x >= generator.p():
+        raise EncodingError("x coordinate of public key is not below the field prime")
     if len(sec) == 1 + byte_count * 2:
         isok = sec0 == b"\4"
+        y = from_bytes_32(sec[1 + byte_count : 1 + 2 * byte_count])
         if not strict:
-            isok = isok or (sec0 in [b"\6", b"\7"])
+            # hybrid form: the prefix also carries the parity of y
+            isok = isok or (sec0 in (b"\6", b"\7") and (y & 1) == (sec0 == b"\7"))
+        if generator and y >= generator.p():
+            isok = False
         if isok:
-            y = from_bytes_32(sec[1 + byte_count : 1 + 2 * byte_count])
             return (x, y)
     elif len(sec) == 1 + byte_count:
-        if not strict or (sec0 in (b"\2", b"\3")):
+        if sec0 in (b"\2", b"\3"):
             is_y_odd = sec0 != b"\2"
             assert generator is not None
             return cast(tuple[int, int], generator.points_for_x(x)[is_y_odd])
